@@ -189,6 +189,94 @@ Definition ParseTGData (bs root : list byte) : Res (Z * list wtset) :=
     do ws <- parse_cmds (Z.to_nat (Z.min cnt (blen bs + 1))) bs root (tgIDLenBytes + wtCountLenBytes);
     Ok (tgid, ws).
 
+(* ------------------------------------------------------------------ the checked decoder (after the fix) *)
+
+(** executor/wal.go parseTGData (fix "ParseTGData checks every length field against the buffer"): the same
+    steps, each slice expression preceded by the test [available(n)] := 0 <= n <= len - cursor; a failed
+    test is an ERROR RETURN ([Rejected]).  The slice expressions keep their explicit [Panic] outcome; that
+    they are unreachable is a theorem (TGCodec_facts.parseTGData_no_panic), not a convention.
+    [ParseTGData] above is now the unguarded sequence of steps (io.DSVFromBytes is still unguarded in Go). *)
+Definition available (bs : list byte) (cursor n : Z) : bool := (0 <=? n) && (n <=? blen bs - cursor).
+
+(** if !available(n) { return error }; x := bs[cursor : cursor+n] *)
+Definition take {A} (bs : list byte) (cursor n : Z) (k : list byte -> Res A) : Res A :=
+  if available bs cursor n then (do x <- slice bs cursor (cursor + n); k x) else Rejected.
+
+(** executor/wal.go dsvByteLength: byte length of the shape vector at the head of buf, None if a length
+    field points outside buf *)
+Fixpoint dsv_len_loop (n : nat) (buf : list byte) (cursor : Z) : option Z :=
+  match n with
+  | O => Some cursor
+  | S n' =>
+      if blen buf <=? cursor then None
+      else match index buf cursor with
+           | Ok b => let next := cursor + 1 + Z_of_byte b + 1 in
+                     if blen buf <? next then None else dsv_len_loop n' buf next
+           | _ => None
+           end
+  end.
+Definition dsv_byte_length (buf : list byte) : option Z :=
+  match buf with
+  | [] => None
+  | b :: _ => dsv_len_loop (Z.to_nat (Z_of_byte b)) buf 1
+  end.
+
+Definition parse_cmd_c (bs : list byte) (root : list byte) (cursor : Z) : Res (wtset * Z) :=
+  take bs cursor recordLenLenBytes (fun b =>
+  do rt <- to_int I8 b;
+  let cursor := cursor + recordLenLenBytes in
+  take bs cursor fpLenLenBytes (fun b =>
+  do fplen <- to_int I16 b;
+  let cursor := cursor + fpLenLenBytes in
+  take bs cursor fplen (fun key =>
+  let cursor := cursor + fplen in
+  take bs cursor dataLenLenBytes (fun b =>
+  do datalen <- to_int I32 b;
+  let cursor := cursor + dataLenLenBytes in
+  take bs cursor varRecLenLenBytes (fun b =>
+  do vrl <- to_int I32 b;
+  let cursor := cursor + varRecLenLenBytes in
+  if datalen <? 0 then Rejected else
+  take bs cursor (offsetLenBytes + indexLenBytes + datalen) (fun data =>
+  let cursor := cursor + (offsetLenBytes + indexLenBytes + datalen) in
+  do rest <- slice_from bs cursor;
+  match dsv_byte_length rest with
+  | None => Rejected
+  | Some _ =>
+      do sl <- dsv_from_bytes rest;
+      let '(shapes, l) := sl in
+      Ok (mkwt rt (wal_full_path root key) datalen vrl data shapes, cursor + l)
+  end)))))).
+
+Fixpoint parse_cmds_c (n : nat) (bs root : list byte) (cursor : Z) : Res (list wtset) :=
+  match n with
+  | O => Ok []
+  | S n' =>
+      do wc <- parse_cmd_c bs root cursor;
+      let '(w, c') := wc in
+      do rest <- parse_cmds_c n' bs root c';
+      Ok (w :: rest)
+  end.
+
+Definition parseTGData (bs root : list byte) : Res (Z * list wtset) :=
+  take bs 0 (tgIDLenBytes + wtCountLenBytes) (fun _ =>
+  do b <- slice bs 0 tgIDLenBytes;
+  do tgid <- to_int I64 b;
+  do b <- slice bs tgIDLenBytes (tgIDLenBytes + wtCountLenBytes);
+  do cnt <- to_int I64 b;
+  if (cnt <? 0) || (blen bs <? cnt) then Rejected
+  else
+    do ws <- parse_cmds_c (Z.to_nat cnt) bs root (tgIDLenBytes + wtCountLenBytes);
+    Ok (tgid, ws)).
+
+(** the exported ParseTGData: logs the error and returns (0, nil) *)
+Definition ParseTGData_go (bs root : list byte) : Res (Z * list wtset) :=
+  match parseTGData bs root with
+  | Ok r => Ok r
+  | Rejected => Ok (0, [])
+  | Panic => Panic
+  end.
+
 (* ------------------------------------------------------------------ OffsetIndexBuffer accessors *)
 Definition oib_offset (b : list byte) : Res Z := do x <- slice b 0 8; to_int I64 x.
 Definition oib_index (b : list byte) : Res Z := do x <- slice b 8 16; to_int I64 x.
